@@ -270,7 +270,7 @@ def run_drain(rep: C.Report, wd: str, tier: str, seed: int) -> None:
     edges = res[1].json_cases("EDGE")
     if not edges:
         raise C.MachineryError("no Drain edges emitted")
-    replay(rep, edges, seed, walks=150 if tier == "quick" else 2000, walk_len=30)
+    replay(rep, edges, seed, walks=1500 if tier == "quick" else 20000, walk_len=30)
 
 
 def run(tier: str, seed: int) -> int:
